@@ -60,6 +60,12 @@ def controls_c18(rep):
     for rule, must in (('E.static', 'last'), ('E.tls.dtor', 'pool'), ('E.const.write', 'Get_t'), ('E.deny', 'gsl_rng_env_setup'), ('E.escape', 'escaping_scratch')):
         hit = any(must in s for s in sc.fired.get(rule, []))
         rep.fixture('%s on fixtures/bad_shapes.cpp (%s)' % (rule, must), hit)
+    sc2 = Scratch()
+    c18.check_const_queries(db, sc2, unit_name='fixture', floors=False, record='squids::Locked')
+    fired = sc2.fired.get('E.const.write', [])
+    rep.fixture('E.const.write on lock-guarded mutable data: unlocked access flagged', any('bad' in s_ and 'unlocked' in s_ for s_ in fired))
+    rep.fixture('E.const.write on lock-guarded mutable data: escaping reference flagged', any('leak' in s_ and 'escape' in s_ for s_ in fired))
+    rep.fixture('E.const.write silent on access under a scoped lock', not any('good' in s_ for s_ in fired))
     # and the fixture's harmless const query must stay quiet
     rep.fixture('E.const.write silent on the harmless fixture query Get_x', not any('Get_x' in s for s in sc.fired.get('E.const.write', [])))
 
